@@ -35,6 +35,9 @@ type objKind struct {
 	// and the kind's own validity check apply
 	stable func(op string) bool
 	valid  func(text, op, res string) string // "" or a complaint
+	// stream gives, for kinds with a read cursor, the results of reading a fresh object to its end (the last entry is
+	// the terminal answer); the result of a "Next" at cursor k is stream[k] (SchemaApi!CursorAt)
+	stream func(text string) []string
 }
 
 var (
@@ -86,10 +89,11 @@ func objHistories(c *core.Ctx, kind string) ([]apiHist, error) {
 }
 
 type objHistCase struct {
-	Kind  string    `json:"objkind"`
-	T1    string    `json:"t1"`
-	T2    string    `json:"t2"`
-	Steps []apiStep `json:"hist"`
+	Kind   string    `json:"objkind"`
+	T1     string    `json:"t1"`
+	T2     string    `json:"t2"`
+	Steps  []apiStep `json:"hist"`
+	Cursor []int     `json:"cursor,omitempty"`
 }
 
 func objReplay(k objKind, cs objHistCase) []core.Finding {
@@ -123,7 +127,12 @@ func objReplay(k objKind, cs objHistCase) []core.Finding {
 				continue
 			}
 			res, rd := k.call(objs[st.Obj], st.Op)
-			if k.stable == nil || k.stable(st.Op) {
+			if st.Op == "Next" && k.stream != nil && i < len(cs.Cursor) && cs.Cursor[i] >= 0 {
+				// beyond the first terminal answer (end of input, or a refusal) nothing is demanded
+				if want := k.stream(content[st.Obj]); cs.Cursor[i] < len(want) && want[cs.Cursor[i]] != res {
+					fs = append(fs, core.Finding{Class: k.name + ":cursor:Next", What: fmt.Sprintf("step %d %s.Next() = %.120q, element %d of the text's stream is %.120q; history: %s", i, st.Obj, res, cs.Cursor[i], want[cs.Cursor[i]], describe())})
+				}
+			} else if k.stable == nil || k.stable(st.Op) {
 				ref, _ := k.call(k.create(content[st.Obj]), st.Op)
 				if ref != res {
 					fs = append(fs, core.Finding{Class: k.name + ":history-dependent:" + st.Op, What: fmt.Sprintf("step %d %s.%s() = %.200q, on a fresh object with the same text %.200q; history: %s", i, st.Obj, st.Op, res, ref, describe())})
@@ -156,7 +165,7 @@ func runObjHistories(c *core.Ctx, k objKind, pairs [][2]string) error {
 	}
 	core.ParallelFor(len(pairs), func(pi int) {
 		for _, h := range hs {
-			cs := objHistCase{Kind: k.name, T1: pairs[pi][0], T2: pairs[pi][1], Steps: h.Hist}
+			cs := objHistCase{Kind: k.name, T1: pairs[pi][0], T2: pairs[pi][1], Steps: h.Hist, Cursor: h.Cursor}
 			c.CountEval(1)
 			c.Report(cs, objReplay(k, cs))
 		}
@@ -208,9 +217,16 @@ var objKinds = map[string]objKind{
 			case "Len":
 				n, err := d.Len()
 				return fmt.Sprint(n, " ", objErr(err)), nil
+			case "Next":
+				lex, err := d.NextLexeme()
+				if err != nil {
+					return "END " + objErr(err), nil
+				}
+				return lex.String(), nil
 			}
 			return "unknown op", nil
-		}},
+		},
+		stable: func(op string) bool { return op != "Next" }},
 	"number": {name: "number",
 		create: func(text string) any {
 			n, err := jnum.NewNumber(jbytes.NewBytes(text))
@@ -338,4 +354,27 @@ func objPairs(texts []string, n int, seed int64) [][2]string {
 		}
 	}
 	return out
+}
+
+// jdocStream reads a fresh document to its first terminal answer.
+func jdocStream(text string) []string {
+	k := objKinds["jdoc"]
+	d := k.create(text)
+	var out []string
+	for i := 0; i < 100000; i++ {
+		res, _ := k.call(d, "Next")
+		out = append(out, res)
+		if strings.HasPrefix(res, "END ") || strings.HasPrefix(res, "PANIC ") {
+			break
+		}
+	}
+	return out
+}
+
+func init() {
+	j := objKinds["jdoc"]
+	j.stream = jdocStream
+	objKinds["jdoc"] = j
+	j.name = "jdoc1"
+	objKinds["jdoc1"] = j
 }
